@@ -304,7 +304,7 @@ impl InnerProductArgPC {
             let ghost k = it.index@;
             proof { assert(*info == lc_info@[k]); lemma_need_mono(lc_info@, k + 1, lc_info@.len() as int); }
 //@end
-//@fn id=ipa.check_combinations file=poly-commit/src/ipa_pc/mod.rs scope="impl<G, D, P> PolynomialCommitment<G::ScalarField, P> for InnerProductArgPC<G, D, P>" name=check_combinations props=C06,C05,C04,C17
+//@fn id=ipa.check_combinations file=poly-commit/src/ipa_pc/mod.rs scope="impl<G, D, P> PolynomialCommitment<G::ScalarField, P> for InnerProductArgPC<G, D, P>" name=check_combinations props=C06,C05,C04,C17,C02
     #[verifier::loop_isolation(false)]
     fn check_combinations<'a>(vk: &VK, linear_combinations: Vec<&'a LinearCombination>, commitments: Vec<&'a LabeledCommitment<Commitment>>, eqn_query_set: &BTreeSet<(String, (String, Pt))>, eqn_evaluations: &BTreeMap<(String, Pt), Fr>, proof: &BatchLCProof, sponge: &mut Sponge, rng: &mut Rng) -> (res: Result<bool, Error>)
     requires
@@ -315,7 +315,7 @@ impl InnerProductArgPC {
         // every combination is turned into ONE commitment sum_i c_i C_i (and sum_i c_i S_i with the kept degree bound), its constants are
         // subtracted from every claimed value of its label, and the verdict is the scheme's batch verification of exactly these;
         // a combination that would drop an enforced degree bound, or names a polynomial without commitment, is refused
-        icc_post(vk, linear_combinations@, commitments@, eqn_query_set@, eqn_evaluations@, proof, old(sponge).st@, old(rng).id@, old(rng).pos@, res, final(sponge).st@),   // name=ipa.check_combinations.batch_verification_of_the_combined_commitments props=C06,C05,C04,C17
+        icc_post(vk, linear_combinations@, commitments@, eqn_query_set@, eqn_evaluations@, proof, old(sponge).st@, old(rng).id@, old(rng).pos@, res, final(sponge).st@),   // name=ipa.check_combinations.batch_verification_of_the_combined_commitments props=C06,C05,C04,C17,C02
 //@body
 //@rw 1 /let BatchLCProof \{ proof, \.\. \} = proof;/ => let proof = &proof.proof;
 //@rw 1 /(?s)let label_comm_map = (commitments\s*\.into_iter\(\)\s*\.map\(.*?\))\s*\.collect::<BTreeMap<_, _>>\(\);/ => let cv__: Vec<(&String, &LabeledCommitment<Comm>)> = \1.collect();
